@@ -65,16 +65,19 @@ def run(tier):
         rep.extra["key_classes"].setdefault(key[n], []).append(n)
     rep.extra["key_classes"] = {k: v for k, v in rep.extra["key_classes"].items() if len(v) > 1}
     # --- Explore
+    known_calls = {k["signature"]["call"] for k in rep.known if "call" in k.get("signature", {})} & set(names)
+    rep.extra["calls_excluded_from_the_model_invariant_as_known_findings"] = sorted(known_calls)
     d = common.workdir("c06")
     with open(os.path.join(d, "MC_Session.tla"), "w") as f:
         f.write("\n".join(["---- MODULE MC_Session ----", "EXTENDS Session",
                            "MCCalls == " + common.tla_expr(set(names)),
                            "MCKey == " + common.tla_expr(key), "MCArt == " + common.tla_expr(art),
-                           "MCFresh == " + common.tla_expr(fresh), "MCOp == " + common.tla_expr(ops), "===="]) + "\n")
+                           "MCFresh == " + common.tla_expr(fresh), "MCOp == " + common.tla_expr(ops),
+                           "MCKnown == " + common.tla_expr(known_calls), "===="]) + "\n")
     maxlen = 3
     cfg = os.path.join(d, "MC_Session.cfg")
     with open(cfg, "w") as f:
-        f.write("\n".join(["SPECIFICATION Spec", "CONSTANTS", "  Calls <- MCCalls", "  KeyOf <- MCKey", "  ArtOf <- MCArt", "  FreshOf <- MCFresh", "  OpOf <- MCOp",
+        f.write("\n".join(["SPECIFICATION Spec", "CONSTANTS", "  Calls <- MCCalls", "  KeyOf <- MCKey", "  ArtOf <- MCArt", "  FreshOf <- MCFresh", "  OpOf <- MCOp", "  Known <- MCKnown",
                            "  MaxLen = %d" % maxlen, "INVARIANT C06_CacheTransparent", "INVARIANT CacheFunctional", "CHECK_DEADLOCK FALSE"]) + "\n")
     res = common.run_tlc(os.path.join(d, "MC_Session.tla"), cfg, timeout=1500)
     rep.add_tlc("Session.tla, %d calls, histories <= %d" % (len(names), maxlen), res)
